@@ -273,7 +273,8 @@ def check(ctx):
         if miss:
             n_comb = max(miss.values())
             why = "; ".join(f"{k}: {must[k][2] if k in must else 'temperature items need the units item'}" for k in sorted(miss))
-            ctx.ob("R1", f"facade-unbuildable::{mod}::{'+'.join(sorted(miss))}", False,
+            # keyed by the table module (the input that fails): the set of missing items is in the message
+            ctx.ob("R1", f"facade-unbuildable::{mod}", False,
                    f"every combination using {mod} ({n_comb} shipped combinations) lacks required item(s) {sorted(miss)}: facade construction / a read-only member raises KeyError or AttributeError [{why}]",
                    T.modules[mod].path, detail={"module": mod, "missing": dict(miss)})
         else:
